@@ -181,8 +181,10 @@ def _src_exprs(pv, e, depth=3):
 
 
 def renderers(P):
-    """the renderers of CliOutput (the three named ones plus any further method of CliOutput that takes the FileStore: a renderer
-    added for a new output format) and, among them, those that print a JSON document to stdout"""
+    """the renderers of the CLI output and, among them, those that print a JSON document to stdout.  By name (the three methods of
+    CliOutput), plus any further method of CliOutput that takes the FileStore (a renderer added for a new output format); when the
+    output was redesigned around renderer objects: the implementations of a trait of the CLI crate that the CliOutput methods
+    taking the FileStore hand their data to."""
     rs = {}
     for name in ("human_output", "json_output", "rdjson_output"):
         f = P.fn(OUT + "::" + name, required=False)
@@ -190,12 +192,61 @@ def renderers(P):
             rs[name] = f
     meths = [g for g in P.fns.values() if _live(g) and (g.self_adt or "").endswith("::CliOutput") and g.kind == "AssocFn"
              and any("FileStore" in t for t in g.sig_inputs)]
-    for g in meths:
-        rs.setdefault(g.name, g)
+    if rs:
+        for g in meths:
+            rs.setdefault(g.name, g)
+    else:
+        reach = P.reachable(meths) if meths else set()
+        by_trait = {}
+        for g in P.fns.values():
+            if _live(g) and g.impl_trait and g.impl_trait.startswith(CLI) and g.path in reach and not (g.self_adt or "").endswith("::CliOutput"):
+                by_trait.setdefault((g.impl_trait, g.name), []).append(g)
+        cands = [v for v in by_trait.values() if len(v) >= 2 and any(prints_anything(P, g) for g in v)]
+        if len(cands) == 1:
+            rs = {"%s::%s" % ((g.self_adt or g.self_ty or "?").split("::")[-1], g.name): g for g in cands[0]}
+        else:
+            for g in meths:
+                rs.setdefault(g.name, g)
     if len(rs) < 3:
-        raise AnchorMissing("the renderers of CliOutput (methods taking the FileStore) cannot be identified: %s" % sorted(g.path for g in rs.values()))
+        raise AnchorMissing("the renderers of the CLI output cannot be identified: %s" % sorted(g.path for g in rs.values()))
     jsonish = {n: g for n, g in rs.items() if any("JSONObjectWriter" in (call_name(x) or "") for x in inlined(P, g).walk() if x.get("k") in ("Call", "MethodCall"))}
     return rs, jsonish
+
+
+def prints_anything(P, g):
+    return any(x.get("k") == "Call" and (call_name(x) or "").endswith(("stdio::_print", "stdio::_eprint")) for x in inlined(P, g, depth=1).walk())
+
+
+def hand_over(P, g):
+    """the CliOutput methods (taking the FileStore) through which a renderer object gets its data; empty for a renderer that is
+    itself a method of CliOutput"""
+    if (g.self_adt or "").endswith("::CliOutput"):
+        return []
+    return sorted((m for m in P.fns.values() if _live(m) and (m.self_adt or "").endswith("::CliOutput") and m.kind == "AssocFn"
+                   and any("FileStore" in t for t in m.sig_inputs) and g.path in P.reachable([m])), key=lambda m: m.path)
+
+
+def field_origins(P, pv_atoms):
+    """one level of inter-procedural provenance: for every field atom of a CLI struct, the atoms of the expressions that struct
+    literals of the CLI store into that field"""
+    out = set()
+    wanted = {(a[1], a[2]) for a in pv_atoms if a[0] == "field" and (a[1] or "").startswith(CLI)}
+    if not wanted:
+        return out, []
+    exprs = []
+    for f in P.fns.values():
+        if not _live(f) or not f.path.startswith(CLI):
+            continue
+        pv = None
+        for x in f.walk():
+            if x.get("k") == "Struct" and "rest" not in x and isinstance(x.get("fields"), list):
+                adt = norm(x.get("variant") or x.get("adt") or "")
+                for fl in x["fields"]:
+                    if isinstance(fl, dict) and "e" in fl and (adt, fl.get("name")) in wanted:
+                        pv = pv or Prov(f)
+                        out |= pv.atoms(fl["e"])
+                        exprs.extend(_src_exprs(pv, fl["e"]))
+    return out, exprs
 
 
 def diag_fields(P):
@@ -263,7 +314,20 @@ def r18a(P, R):
                 e = last
         if e is not None and e.get("k") in ("Ret", "InlRet"):
             e = e.get("e")
-        return lit_value(e) if e is not None else None
+        if e is None:
+            return None
+        v = lit_value(e)
+        if v is None:
+            # a named constant (`EXIT_SUCCESS`): its literal value
+            x = e
+            while x.get("k") in ("DropTemps", "Use", "Cast") and "e" in x:
+                x = x["e"]
+            if x.get("k") == "Path" and x.get("def") and "local" not in x:
+                for cp, c in P.fns.items():
+                    if (cp == norm(x["def"]) or cp.startswith(norm(x["def"]) + "::{")) and c.kind.startswith("Const"):
+                        v = lit_value(c.body)
+                        break
+        return v
     # branches on the command result: [(variant, region)] from `match`, `if let` and `let .. else`; looked for where the process
     # exits and, when the exit itself sits in a small helper, in the functions that call it
     cands, frontier = [body0], [body0]
@@ -390,12 +454,21 @@ def r18b(P, R):
     one document, and a renderer that prints its own format (a new `--output-format`) is selected only by the format dispatch"""
     run_cli = P.fn(CLI + "run_cli")
     reach = P.reachable([run_cli])
-    rs, jsonish = renderers(P)
-    rpaths = {g.path for g in rs.values()}
-    expect = {g.path for g in jsonish.values()}
 
     def prints(f):
         return [n for n in f.walk() if n.get("k") == "Call" and (call_name(n) or "") == "std::io::stdio::_print"]
+    try:
+        rs, jsonish = renderers(P)
+    except AnchorMissing as e:
+        # whatever the renderers look like, the check and generate stages never write to stdout
+        stages = [g for g in (P.fn(CLI + "check::run_check", required=False), P.fn(CLI + "generate::run_generate", required=False)) if g is not None]
+        for p in sorted(P.reachable(stages)):
+            if prints(P.fns[p]):
+                R.violated("R18-b", "stdout:" + p, "%s (check/generate stage) writes to stdout: in json/rdjson mode stdout is no longer one JSON document" % p, loc=P.fns[p].loc())
+        raise
+    rpaths = {g.path for g in rs.values()}
+    expect = {g.path for g in jsonish.values()}
+    owners = {g.self_adt for g in rs.values() if g.self_adt and not g.self_adt.endswith("::CliOutput")}
     printers = {p: prints(P.fns[p]) for p in sorted(reach) if prints(P.fns[p])}
     R.count("functions_reachable_from_run_cli", len(reach))
     R.floor("R18-b", "JSON renderers of CliOutput", len(expect), 2)
@@ -467,7 +540,10 @@ def r18b(P, R):
     ok = False
     for m in ms:
         v, catch = arm_variants(m)
-        if v == all_variants and not catch and all(any(call_name(y) in rpaths for y in subnodes(arm["body"]) if y.get("k") in ("MethodCall", "Call")) for arm in m["arms"]):
+        if v == all_variants and not catch and all(
+                any(call_name(y) in rpaths for y in subnodes(arm["body"]) if y.get("k") in ("MethodCall", "Call"))
+                or any(norm(y.get("def") or y.get("adt") or "") in owners for y in subnodes(arm["body"]) if y.get("k") in ("Path", "Struct"))
+                for arm in m["arms"]):
             ok = True
     unreached = sorted(g.path for g in rs.values() if g.path not in reach)
     if unreached:
@@ -744,61 +820,79 @@ POS = "nitrogql_ast::base::Pos"
 
 def r18f(P, R):
     """renderers agree: all read check_errors, test `builtin` before resolving the file"""
-    rs, jsonish = renderers(P)
+    try:
+        rs, jsonish = renderers(P)
+    except AnchorMissing as e:
+        R.undecided("R18-f", "renderers", "kind=anchor-missing: %s" % e)
+        rs, jsonish = {}, {}
     dfields = diag_fields(P)
     for name, f0 in sorted(rs.items()):
-        f = inlined(P, f0)
-        reads = any(is_out(a) and fld in dfields for a, fld in field_reads(f))
+        scope = [inlined(P, f0)] + [inlined(P, m) for m in hand_over(P, f0)]
+        reads = any(is_out(a) and fld in dfields for f in scope for a, fld in field_reads(f))
         R.check("R18-f", "reads-errors:" + name, reads, "renders the recorded diagnostics", "%s does not read %s" % (f0.path, "/".join(sorted(dfields))), loc=f0.loc())
     for name, f0 in sorted(jsonish.items()):
-        f = inlined(P, f0)
-        pv = Prov(f)
-        acc = f.nodes()
-        gets = [i for i, (c, _) in enumerate(acc) if c.get("k") == "MethodCall" and (call_name(c) or "").endswith("FileStore::get_file")]
-        R.floor("R18-f", "file lookups in " + name, len(gets), 1)
-        reads_builtin = any(x.get("k") == "Field" and x.get("field") == "builtin" and (norm(x.get("adt")) or "").endswith("::Pos") for x in f.walk()) or \
-            (POS, "builtin") in field_reads(f)
-        for i in gets:
-            c = acc[i][0]
-            # guarded by !position.builtin: `.then(|| ..)` on the test, an enclosing `if`/`match` on it, or an early exit before
-            ok = False
-            p = acc[i][1]
-            while p >= 0 and not ok:
-                n = acc[p][0]
-                if n.get("k") == "MethodCall" and n["method"] in ("then", "then_some") and has_field(pv.atoms(n["recv"]), POS, "builtin"):
-                    ok = True
-                elif n.get("k") == "If" and has_field(pv.atoms(n["cond"]), POS, "builtin"):
-                    ok = True
-                elif n.get("k") == "Match" and n.get("src") == "Normal" and has_field(pv.atoms(n["scrut"]), POS, "builtin"):
-                    ok = True
-                p = acc[p][1]
-            if not ok:
-                for j in range(i):
-                    x = acc[j][0]
-                    if x.get("k") == "If" and has_field(pv.atoms(x["cond"]), POS, "builtin") and \
-                            any(y.get("k") in ("Ret", "Continue", "Break") for y in subnodes(x["then"])) and not _contains(x, c):
+        scope = [inlined(P, f0)] + [inlined(P, m) for m in hand_over(P, f0)]
+        n_gets = 0
+        for f in scope:
+            pv = Prov(f)
+            acc = f.nodes()
+            gets = [i for i, (c, _) in enumerate(acc) if c.get("k") == "MethodCall" and (call_name(c) or "").endswith("FileStore::get_file")]
+            n_gets += len(gets)
+            reads_builtin = any(x.get("k") == "Field" and x.get("field") == "builtin" and (norm(x.get("adt")) or "").endswith("::Pos") for x in f.walk()) or \
+                (POS, "builtin") in field_reads(f)
+            for i in gets:
+                c = acc[i][0]
+                # guarded by !position.builtin: `.then(|| ..)` on the test, an enclosing `if`/`match` on it, or an early exit before
+                ok = False
+                p = acc[i][1]
+                while p >= 0 and not ok:
+                    n = acc[p][0]
+                    if n.get("k") == "MethodCall" and n.get("recv") is not None and not _contains(n["recv"], c) and has_field(pv.atoms(n["recv"]), POS, "builtin"):
+                        ok = True   # `(!builtin).then(|| ..)`, `position.filter(|p| !p.builtin).and_then(|p| ..)`: runs only past the test
+                    elif n.get("k") == "If" and has_field(pv.atoms(n["cond"]), POS, "builtin"):
                         ok = True
-            key = "builtin-guard:" + name
-            if ok:
-                R.holds("R18-f", key, "the file is resolved only for non-builtin positions", loc=f0.loc())
-            elif not reads_builtin:
-                R.violated("R18-f", key, "%s resolves the file of a position without ever testing `builtin`" % f0.path, loc=f0.loc())
-            else:
-                R.undecided("R18-f", key, "%s reads `builtin`, but not as a guard of the file lookup in a shape this rule reads" % f0.path, loc=f0.loc())
-            a = pv.atoms(c["args"][0])
-            R.check("R18-f", "file-index:" + name, has_field(a, POS, "file"),
-                    "file looked up by the diagnostic's own file index", "%s looks the file up by something other than position.file" % f0.path, loc=f0.loc())
+                    elif n.get("k") == "Match" and n.get("src") == "Normal" and has_field(pv.atoms(n["scrut"]), POS, "builtin"):
+                        ok = True
+                    p = acc[p][1]
+                if not ok:
+                    for j in range(i):
+                        x = acc[j][0]
+                        if x.get("k") == "If" and has_field(pv.atoms(x["cond"]), POS, "builtin") and \
+                                any(y.get("k") in ("Ret", "InlRet", "Continue", "Break") for y in subnodes(x["then"])) and not _contains(x, c):
+                            ok = True
+                key = "builtin-guard:" + name
+                if ok:
+                    R.holds("R18-f", key, "the file is resolved only for non-builtin positions", loc=f0.loc())
+                elif not reads_builtin:
+                    R.violated("R18-f", key, "%s resolves the file of a position without ever testing `builtin`" % f.path, loc=f0.loc())
+                else:
+                    R.undecided("R18-f", key, "%s reads `builtin`, but not as a guard of the file lookup in a shape this rule reads" % f.path, loc=f0.loc())
+                a = pv.atoms(c["args"][0])
+                R.check("R18-f", "file-index:" + name, has_field(a, POS, "file"),
+                        "file looked up by the diagnostic's own file index", "%s looks the file up by something other than position.file" % f.path, loc=f0.loc())
+        R.floor("R18-f", "file lookups in " + name, n_gets, 1)
         # line/column come from the same position; rdjson is 1-based
-        one_based = name.startswith("rdjson") or any(v and "diagnostics" == v for v in str_lits_in(f0.body))
+        f = scope[0]
+        pv = Prov(f)
+        one_based = "rdjson" in name.lower() or any(v and "diagnostics" == v for v in str_lits_in(f0.body))
         for key, fld in (("line", "line"), ("column", "column")):
             calls = [c for c in f.walk() if c.get("k") == "MethodCall" and c["method"] == "value" and len(c["args"]) >= 2 and lit_value(c["args"][0]) == key]
             R.floor("R18-f", "%s writes in %s" % (key, name), len(calls), 1)
             for c in calls:
-                a = pv.atoms(c["args"][1])
+                a = set(pv.atoms(c["args"][1]))
                 other = "line" if fld == "column" else "column"
+                exprs = list(_src_exprs(pv, c["args"][1]))
+                indirect = False
+                if not has_field(a, POS, fld) and not has_field(a, POS, other):
+                    # the value was copied into a struct of the CLI first (a located diagnostic): follow the field to where it is filled
+                    a = {x for x in a if not (x[0] == "field" and (x[1] or "").startswith(CLI) and x[2] != key and x[2] != fld)}
+                    more, more_exprs = field_origins(P, a)
+                    indirect = bool(more)
+                    a |= more
+                    exprs += more_exprs
                 own, cross = has_field(a, POS, fld), has_field(a, POS, other)
                 plus1 = False
-                for e in _src_exprs(pv, c["args"][1]):
+                for e in exprs:
                     for x in subnodes(e):
                         if x.get("k") == "Binary" and x.get("op") == "+" and "1" in (lit_value(x["r"]), lit_value(x["l"])):
                             plus1 = True
@@ -807,11 +901,13 @@ def r18f(P, R):
                 k2 = "%s:%s" % (key, name)
                 if own and not cross and plus1 == one_based:
                     R.holds("R18-f", k2, "`%s` is the diagnostic's %s (%s-based)" % (key, fld, 1 if one_based else 0), loc=f0.loc())
-                elif not own or plus1 != one_based:
+                elif not own and not cross:
+                    R.undecided("R18-f", k2, "`%s` is not traced back to a component of the diagnostic's position" % key, loc=f0.loc())
+                elif (not own and cross) or (own and not cross and plus1 != one_based and not indirect):
                     R.violated("R18-f", k2, "%s writes `%s` from the wrong component or base (reads Pos.%s: %s, adds 1: %s, expected %d-based)"
                                % (f0.path, key, fld, own, plus1, 1 if one_based else 0), loc=f0.loc())
                 else:
-                    R.undecided("R18-f", k2, "`%s` derives from both Pos.line and Pos.column" % key, loc=f0.loc())
+                    R.undecided("R18-f", k2, "`%s`: component or base not decided (Pos.%s: %s, Pos.%s: %s, adds 1: %s)" % (key, fld, own, other, cross, plus1), loc=f0.loc())
     # the human renderer (print_positioned_error and what it delegates to) also tests builtin before indexing the file store
     ppe = P.fn("nitrogql_error::print_positioned_error")
     scope = scope_fns(P, ppe)
@@ -848,15 +944,18 @@ def r18g(P, R):
         else:
             R.violated("R18-g", key, "%s no longer records that the `%s` stage ran: `generate` runs the check stage implicitly, and json_output prints `check.errors` "
                        "only when \"check\" was recorded, so a failing run exits 1 with no located diagnostic" % (f0.path, lit), loc=f0.loc())
-    rs, jsonish = renderers(P)
-    jo = rs.get("json_output") or next((g for n, g in sorted(jsonish.items()) if not n.startswith("rdjson")), None)
+    try:
+        rs, jsonish = renderers(P)
+    except AnchorMissing:
+        rs, jsonish = {}, {}
+    jo = rs.get("json_output") or next((g for n, g in sorted(jsonish.items()) if "rdjson" not in n.lower()), None)
     if jo is None:
         R.undecided("R18-g", "json-gates", "the JSON renderer cannot be identified")
     else:
         joi = inlined(P, jo)
         gate_lits = {v for c in joi.walk() if c.get("k") == "Binary" and c.get("op") == "==" for v in str_lits_in(c)} | \
                     {c.get("v") for c in joi.walk() if c.get("k") == "PatExpr" and c.get("lk") == "str"} | \
-                    {v for c in joi.walk() if c.get("k") == "MethodCall" and (c.get("method") in ("contains", "eq") or ((call_name(c) or "") in P.fns and is_out(P.fns[call_name(c)].self_adt)))
+                    {v for c in joi.walk() if c.get("k") == "MethodCall" and (c.get("method") in ("contains", "eq") or ((call_name(c) or "") in P.fns and (call_name(c) or "").startswith(CLI)))
                      for a in c["args"] for v in str_lits_in(a)}
         if {"check", "generate"} <= gate_lits:
             R.holds("R18-g", "json-gates", "json_output gates its sections on the recorded stage names", loc=jo.loc())
